@@ -23,7 +23,7 @@ RULE = ("LinGreedy(eps=0) / LinUCB / LinTS x d in {1,2,3,5,8} x query rows m in 
         "x scale in {False, True(single fit)} x histories fit + 0-3 partial_fit with arms having zero rows and arms added "
         "after fit; Gaussian contexts N(1,4), rewards N(0,9); non-trivial = (d=1 and m>1) or lambda != 1 or an arm with zero "
         "rows or >=2 partial_fit chunks or scale=True; distinct = (policy, d, m, lambda, alpha, scale, history skeleton, zero-row arms)")
-BUDGET = {"quick": {"cases": 600, "shards": 8}, "thorough": {"cases": 30000, "shards": 16, "wall_s": 1800}}
+BUDGET = {"quick": {"cases": 1200, "shards": 16}, "thorough": {"cases": 30000, "shards": 16, "wall_s": 3600}}
 MIN = {"quick": {"evaluations": 3000, "nontrivial": 200}, "thorough": {"evaluations": 150000, "nontrivial": 5000}}
 ASSUMPTIONS = ["tolerance 1e-6 (1+|v|) on deterministic expectations (bounded condition number: lambda >= 0.01, |x| small)",
                "LinTS: a draw outside 6 sigma of x.beta is a violation (false-alarm probability ~2e-9 per comparison)",
